@@ -122,6 +122,9 @@ type c18Spec[T any] struct {
 	open    func(in Val) (iter.Seq2[T, error], func())
 	enc     func(T, error) Val
 	errLast bool                             // FASTA, FASTQ, BED, Newick: an error item is the last item
+	// resumed: the iterator over a stream that fails once after half of the input and then
+	// recovers and delivers the rest (readers only)
+	resumed func(in Val) iter.Seq2[T, error]
 	domain  func(in Val) bool                // nil: every input is in the property's domain
 	post    func(items []Val, total int) Val // re-encoding of the items seen (ForEach)
 	unorder bool                             // ForEach: order differs from run to run
@@ -212,6 +215,18 @@ func c18Register[T any](s c18Spec[T]) *Kind {
 				for i, x := range all {
 					if totIsErrItem(x) && i != len(all)-1 {
 						return fmt.Sprintf("item %d is an error and %d items follow it", i, len(all)-1-i)
+					}
+				}
+				if s.resumed != nil {
+					// a stream that fails once in the middle and then recovers: the error item ends
+					// the iteration all the same
+					if rv := c18Consume(s.resumed(in), 0, s.enc); rv.At(0).Int() == 0 {
+						ri := rv.At(1).L
+						for i, x := range ri {
+							if totIsErrItem(x) && i != len(ri)-1 {
+								return fmt.Sprintf("on a stream that fails once and recovers, item %d is an error and %d items follow it", i, len(ri)-1-i)
+							}
+						}
 					}
 				}
 			}
@@ -313,6 +328,11 @@ func c18ReaderSpec[T any](name string, mk func(io.Reader) iter.Seq2[T, error], e
 	return c18Spec[T]{name: name, enc: enc, errLast: errLast,
 		open: func(in Val) (iter.Seq2[T, error], func()) {
 			return mk(totStream(in.At(0).Bytes(), in.At(1).Int() == 1)), totNoCleanup
+		},
+		resumed: func(in Val) iter.Seq2[T, error] {
+			data := in.At(0).Bytes()
+			k := len(data) / 2
+			return mk(&faultReader{data: slices.Clone(data[:k]), resume: slices.Clone(data[k:])})
 		}}
 }
 
